@@ -319,6 +319,9 @@ PROPS["C08"] = {
                    # the one step only the mempool path takes after a spend is parsed: the puzzle fingerprint (its verdict is
                    # run_spendbundle's verdict when COMPUTE_FINGERPRINT is set)
                    V("fingerprint"),
+                   # the mempool's admission entry point around run_spendbundle checks the aggregate signature against every
+                   # collected pair, with multiplicity, exactly like block validation (C05's unit and ground verdicts)
+                   V("sig_paths"), N("native_sig_paths_ground", "sig_paths_ground"),
                    # the builders produce generators too: what they emit must validate like the bundles they were given (the
                    # running-estimate clause of a fresh builder is C10's statement and is reported there)
                    V("builders"), V("builders_interned"), N("native_builders_ground", "builders_ground", thorough_task="builders_ground:thorough", exclude_id=r"/fresh-estimate$")],
